@@ -458,7 +458,6 @@ func (p *ServiceProcessor) ProcessClientStreamRequest(req *http.Request, path st
 	clientInputs chan []byte) (chan []byte, error) {
 
 	outChan := make(chan []byte, 100)
-	var closeOutOnce sync.Once
 	mh, ok := p.handlers[path]
 
 	if !ok {
@@ -474,8 +473,37 @@ func (p *ServiceProcessor) ProcessClientStreamRequest(req *http.Request, path st
 	stopAll := make(chan struct{})
 	closing := sync.Mutex{}
 
+	// outChan is closed by whoever leaves last among the goroutines that may
+	// still send on it: the forwarders and, while it handles a message, this
+	// adapter. No new forwarder is started once it is closed.
+	active := 0
+	outClosed := false
+	enter := func() bool {
+		closing.Lock()
+		defer closing.Unlock()
+		if outClosed {
+			return false
+		}
+		active++
+		return true
+	}
+	leave := func() {
+		closing.Lock()
+		defer closing.Unlock()
+		active--
+		if active == 0 {
+			outClosed = true
+			close(outChan)
+		}
+	}
+
 	go func() {
+		// whatever ends this goroutine, the running requests are told to stop
+		defer close(stopAll)
 		for buf := range clientInputs {
+			if !enter() {
+				return
+			}
 			// create a new instance of a handler
 			msg := reflect.New(mh.msgType).Interface()
 
@@ -483,7 +511,7 @@ func (p *ServiceProcessor) ProcessClientStreamRequest(req *http.Request, path st
 				network.DefaultConstructors(p.Context.server.Suite()))
 			if err != nil {
 				log.Error(xerrors.Errorf("failed to decode message: %v", err))
-				close(outChan)
+				leave()
 				return
 			}
 
@@ -495,7 +523,7 @@ func (p *ServiceProcessor) ProcessClientStreamRequest(req *http.Request, path st
 					close(stopServiceChan)
 				}
 
-				close(outChan)
+				leave()
 				return
 			}
 
@@ -524,12 +552,9 @@ func (p *ServiceProcessor) ProcessClientStreamRequest(req *http.Request, path st
 				}
 
 				// Since this goroutine is created each time the client sends a
-				// request, we then must ensure the outChan is closed only once.
-				defer func() {
-					closeOutOnce.Do(func() {
-						close(outChan)
-					})
-				}()
+				// request, the last one to finish closes the outChan. It takes
+				// over the slot the adapter entered for this message.
+				defer leave()
 
 				for {
 					chosen, v, ok := reflect.Select(cases)
@@ -556,7 +581,6 @@ func (p *ServiceProcessor) ProcessClientStreamRequest(req *http.Request, path st
 				}
 			}()
 		}
-		close(stopAll)
 	}()
 
 	return outChan, nil
